@@ -1,11 +1,15 @@
 """Sidecar contracts for torrentfile/torrent.py."""
 
 
+from contracts.hasher_c import FH, HV2, HHY      # noqa: E402  (hasher object shapes)
+
+
 def register(reg):
     register_init(reg)
     register_assemble(reg)
     register_traverse(reg)
     register_traverse_v2(reg)
+    register_assemble_v2(reg)
     C = reg.contract
 
     # ------------------------------------------------------------------ C06: sort_meta
@@ -199,6 +203,8 @@ def register_traverse(reg):
       props=["C02", "C03", "C10"],
       params={"self": TA, "path": "str"},
       setup=_assembler_setup,
+      modifies=["self.piece_layers", "self.files", "self.pieces"],
+      exists={"hasher": FH, "layers": "bytearray"},
       ghost={"k": "bytes"},
       requires=["fs_isfile(path)", "self.piece_length >= 16384 and is_pow2(self.piece_length)"],
       returns="dict",
@@ -244,14 +250,13 @@ def _hybrid_setup(p, env):
     obj.fields["kws"] = p.alloc(HDict(over={"progress": VInt(0), "progress_bar": VNone(), "pad": obj.fields["pad_flag"]}))
 
 
-def _leaf_ensures(h, amount):
+def _leaf_ensures(h, amount, LEAF="result['']", CONTENT="fs_data(path)", NODE="result", LAYERS="self.piece_layers"):
     """postconditions of the leaf case shared by TorrentFileV2._traverse and TorrentFileHybrid._traverse; h names the local
-    hasher object (an existential witness at call sites)"""
-    LEAF = "result['']"
-    CONTENT = "fs_data(path)"
+    hasher object (an existential witness at call sites).  With other LEAF / CONTENT / NODE / LAYERS texts the same clauses state
+    the single-file case of assemble"""
     PR = f"piece_roots({CONTENT}, {amount})"
     return [
-        ("C02", "leaf_records_the_exact_length", f"('' in result) and {LEAF}['length'] == len({CONTENT})"),
+        ("C02", "leaf_records_the_exact_length", f"('' in {NODE}) and {LEAF}['length'] == len({CONTENT})"),
         ("C02", "empty_file_carries_no_root", f"implies(len({CONTENT}) == 0, not ('pieces root' in {LEAF}))"),
         ("C02", "pieces_root_is_the_merkle_root_over_the_padded_piece_layer",
          f"implies(len({CONTENT}) > 0, ('pieces root' in {LEAF}) and {LEAF}['pieces root'] == mroot({h}.layer_hashes))"),
@@ -262,39 +267,80 @@ def _leaf_ensures(h, amount):
          f"implies(len({CONTENT}) > 0, is_pow2(len({h}.layer_hashes)) and "
          f"len({PR}) <= len({h}.layer_hashes) and (len({h}.layer_hashes) < 2 * len({PR}) or len({h}.layer_hashes) == 1))"),
         ("C02", "piece_layers_entry_exactly_for_files_larger_than_a_piece",
-         f"implies(len({CONTENT}) > 0, (k in self.piece_layers) == ((k in old(self.piece_layers)) or "
+         f"implies(len({CONTENT}) > 0, (k in {LAYERS}) == ((k in old(self.piece_layers)) or "
          f"(len({CONTENT}) > self.piece_length and k == {LEAF}['pieces root']))) and "
-         f"implies(len({CONTENT}) == 0, (k in self.piece_layers) == (k in old(self.piece_layers)))"),
+         f"implies(len({CONTENT}) == 0, (k in {LAYERS}) == (k in old(self.piece_layers)))"),
         ("C02", "the_entry_is_the_piece_layer_of_the_content",
-         f"implies(len({CONTENT}) > self.piece_length, self.piece_layers[{LEAF}['pieces root']] == bytes_join({PR}))"),
+         f"implies(len({CONTENT}) > self.piece_length, {LAYERS}[{LEAF}['pieces root']] == bytes_join({PR}))"),
     ]
 
 
 def register_traverse_v2(reg):
     C = reg.contract
     AM = "(self.piece_length // 16384)"
+    ISF = "fs_isfile(path)"
+
+    def walk_clauses(h):
+        return [
+            ("C02", "pieces_root_is_the_bep52_root_of_the_content",
+             f"implies({ISF} and len(fs_data(path)) > 0, with_lemma(file_root_def(fs_data(path), {AM}, {h}.layer_hashes), "
+             f"result['']['pieces root'] == file_root(fs_data(path), {AM})))"),
+            ("C02", "file_tree_mirrors_the_directory",
+             f"implies(not ({ISF} and len(fs_data(path)) > 0), with_lemma(tree_unfold(path, {AM}), result == tree_of(path, {AM})))"),
+            ("C02", "file_tree_leaf_of_a_non_empty_file",
+             f"implies({ISF} and len(fs_data(path)) > 0, with_lemma(tree_unfold(path, {AM}) and "
+             f"file_root_def(fs_data(path), {AM}, {h}.layer_hashes), result == tree_of(path, {AM})))"),
+            ("C02", "piece_layers_keys_are_exactly_the_roots_of_the_files_larger_than_a_piece",
+             f"implies(not ({ISF} and len(fs_data(path)) > 0), with_lemma(layered_unfold(path, k, self.piece_length), "
+             "(k in self.piece_layers) == ((k in old(self.piece_layers)) or layered_under(path, k, self.piece_length))))"),
+            ("C02", "piece_layers_key_of_a_file_larger_than_a_piece",
+             f"implies({ISF} and len(fs_data(path)) > 0, with_lemma(layered_unfold(path, k, self.piece_length) and "
+             f"file_root_def(fs_data(path), {AM}, {h}.layer_hashes), "
+             "(k in self.piece_layers) == ((k in old(self.piece_layers)) or layered_under(path, k, self.piece_length))))"),
+        ]
+
+    def walk_loop(treevar, modifies):
+        return {0: {"index": "_i0", "modifies": modifies,
+                    "lemmas_after_body": [f"tree_step(sorted_names(path), _i0 - 1, path, {AM})",
+                                          "layered_step(sorted_names(path), _i0 - 1, path, k, self.piece_length)"],
+                    "invariant": [
+                        ("tree_so_far", f"{treevar} == tree_first(sorted_names(path), _i0, path, {AM})"),
+                        ("layers_so_far", "(k in self.piece_layers) == ((k in old(self.piece_layers)) or "
+                                          "layered_under_first(sorted_names(path), _i0, path, k, self.piece_length))"),
+                        ("frame", "self.piece_length == old(self.piece_length)"),
+                    ]}}
+    WALK_NOTE = ("the whole walk, for every finite directory tree, file size and piece length: the value returned is tree_of(path) -- a "
+                 "leaf {'': {length[, pieces root]}} for a file (root = BEP 52 root of its content, none for an empty file), for a "
+                 "directory the dictionary over its ascending listing of the trees of its entries (induction over the tree through this "
+                 "contract at the recursive call), {} otherwise -- and piece layers gains a key exactly for the files larger than one piece")
+    leaf = [(p_, l_, f"implies({ISF}, {e_})") for p_, l_, e_ in _leaf_ensures("fhash", AM)]
     C("torrentfile.torrent.TorrentFileV2._traverse",
       props=["C02", "C10"],
       params={"self": {"cls": "torrentfile.torrent.TorrentFileV2",
                        "fields": {"piece_layers": "dict", "piece_length": "int", "path": "str"}}, "path": "str"},
       setup=_v2_setup,
+      modifies=["self.piece_layers"],
+      exists={"fhash": HV2},
       ghost={"k": "bytes"},
-      requires=["fs_isfile(path)", "self.piece_length >= 16384 and is_pow2(self.piece_length)"],
+      requires=["self.piece_length >= 16384 and is_pow2(self.piece_length)"],
       returns="dict",
-      ensures=_leaf_ensures("fhash", AM),
+      ensures=leaf + walk_clauses("fhash"),
       raises={"BaseException": {}},
-      notes="leaf case (path is a regular file), for every file size and piece length, on top of the HasherV2.process_file contract; "
-            "the directory branch (sorted(os.listdir), recursion) is decided by the bounded harness")
+      loops=walk_loop("file_tree", ["self.piece_layers"]),
+      notes=WALK_NOTE)
     C("torrentfile.torrent.TorrentFileHybrid._traverse",
       props=["C02", "C03", "C10"],
       params={"self": {"cls": "torrentfile.torrent.TorrentFileHybrid",
                        "fields": {"piece_layers": "dict", "piece_length": "int", "path": "str", "files": "list", "pieces": "list[bytes]",
                                   "hashes": "list", "pad_flag": "bool"}}, "path": "str"},
       setup=_hybrid_setup,
+      modifies=["self.piece_layers", "self.files", "self.pieces", "self.hashes"],
+      exists={"file_hash": HHY},
       ghost={"k": "bytes"},
-      requires=["fs_isfile(path)", "self.piece_length >= 16384 and is_pow2(self.piece_length)"],
+      requires=["self.piece_length >= 16384 and is_pow2(self.piece_length)"],
       returns="dict",
-      ensures=_leaf_ensures("file_hash", AM) + [
+      loops=walk_loop("tree", ["self.piece_layers", "self.files", "self.pieces", "self.hashes"]),
+      ensures=[(p_, l_, f"implies({ISF}, {e_})") for p_, l_, e_ in _leaf_ensures("file_hash", AM)] + walk_clauses("file_hash") + [(p_, l_, f"implies({ISF}, {e_})") for p_, l_, e_ in [
           ("C03", "v1_list_gets_the_file_then_its_padding_entry",
            "len(self.files) >= len(old(self.files)) + 1 and "
            "self.files[len(old(self.files))]['length'] == len(fs_data(path)) and "
@@ -307,6 +353,84 @@ def register_traverse_v2(reg):
            "self.files[len(old(self.files)) + 1]['length'] == self.piece_length - len(fs_data(path)) % self.piece_length) and "
            "implies(len(fs_data(path)) == 0 or not self.pad_flag or len(fs_data(path)) % self.piece_length == 0, "
            "len(self.files) == len(old(self.files)) + 1)"),
+      ]],
+      raises={"BaseException": {}},
+      notes="v2 view: " + WALK_NOTE + "; v1 view (file list, padding entries, pieces) per file (leaf clauses); their order across the "
+            "files of a directory is decided by the bounded harness")
+
+
+def register_assemble_v2(reg):
+    """single-file case of the three v2-capable assemble methods, on top of the leaf contracts of _traverse: from the bytes on disk
+    to the info dictionary"""
+    C = reg.contract
+    AM = "(self.piece_length // 16384)"
+    INFO = "self.meta['info']"
+    NODE = f"{INFO}['file tree'][self.name]"
+    common_req = ["self.piece_length >= 16384 and is_pow2(self.piece_length)",
+                  f"('info' in self.meta) and is_dict({INFO}) and ('name' in {INFO}) and {INFO}['name'] == self.name"]
+
+    SINGLE = "fs_isfile(self.path)"
+
+    def ens(h, walk=True):
+        single = _leaf_ensures(h, AM, LEAF=f"{NODE}['']", CONTENT="fs_data(self.path)", NODE=NODE, LAYERS="self.meta['piece layers']") + [
+            ("C02", "single_file_torrent_records_name_length_and_version",
+             f"(self.name in {INFO}['file tree']) and {INFO}['length'] == len(fs_data(self.path)) and {INFO}['meta version'] == 2"),
+        ]
+        out = [(p_, l_, f"implies({SINGLE}, {e_})") for p_, l_, e_ in single]
+        if walk:
+            out += [
+                ("C02", "directory_torrent_records_the_tree_of_the_content_root",
+                 f"implies(not {SINGLE}, {INFO}['file tree'] == tree_of(self.path, {AM}) and {INFO}['meta version'] == 2 and "
+                 f"not ('length' in {INFO} and not ('length' in old({INFO}))))"),
+                ("C02", "directory_torrent_has_a_layer_for_exactly_the_files_larger_than_a_piece",
+                 f"implies(not {SINGLE}, (k in self.meta['piece layers']) == ((k in old(self.piece_layers)) or "
+                 "layered_under(self.path, k, self.piece_length)))"),
+            ]
+        return out
+    C("torrentfile.torrent.TorrentFileV2.assemble",
+      props=["C02", "C10"],
+      params={"self": {"cls": "torrentfile.torrent.TorrentFileV2",
+                       "fields": {"meta": "dict", "name": "str", "piece_layers": "dict", "piece_length": "int", "path": "str"}}},
+      setup=_v2_setup,
+      ghost={"k": "bytes"},
+      requires=common_req,
+      ensures=ens("fhash"),
+      raises={"BaseException": {}},
+      notes="from the bytes on disk to the info dictionary, single file and directory alike (the directory through the whole-walk "
+            "contract of _traverse)")
+    C("torrentfile.torrent.TorrentFileHybrid.assemble",
+      props=["C02", "C03", "C10"],
+      params={"self": {"cls": "torrentfile.torrent.TorrentFileHybrid",
+                       "fields": {"meta": "dict", "name": "str", "piece_layers": "dict", "piece_length": "int", "path": "str", "files": "list",
+                                  "pieces": "list[bytes]", "hashes": "list", "pad_flag": "bool"}}},
+      setup=_hybrid_setup,
+      ghost={"k": "bytes"},
+      requires=common_req + ["len(self.pieces) == 0", f"self.pad_flag == (not {SINGLE})"],
+      ensures=ens("file_hash") + [
+          ("C03", "v1_pieces_are_those_of_the_file_alone",
+           f"implies({SINGLE} and len(fs_data(self.path)) > 0, "
+           f"{INFO}['pieces'] == bytes_join(hybrid_pieces(fs_data(self.path), self.piece_length, False)))"),
+          ("C03", "single_file_hybrid_has_no_file_list", f"implies({SINGLE}, not ('files' in {INFO}) or ('files' in old({INFO})))"),
       ],
       raises={"BaseException": {}},
-      notes="leaf case, on top of the HasherHybrid.process_file contract")
+      notes="v2 view for single file and directory; v1 view (pieces = the file alone, no file list) for the single-file payload; the "
+            "v1 list / pieces of a directory are decided by the bounded harness")
+    C("torrentfile.torrent.TorrentAssembler.assemble",
+      props=["C02", "C03", "C10"],
+      params={"self": {"cls": "torrentfile.torrent.TorrentAssembler",
+                       "fields": {"meta": "dict", "name": "str", "hybrid": "bool", "pad_flag": "bool", "files": "list", "pieces": "bytearray",
+                                  "piece_layers": "dict", "piece_length": "int", "path": "str"}}},
+      setup=_assembler_setup,
+      ghost={"k": "bytes"},
+      requires=common_req + ["fs_isfile(self.path)", "not self.pad_flag"],
+      ensures=[cl for cl in ens("hasher", walk=False) if cl[1] not in ("pieces_root_is_the_merkle_root_over_the_padded_piece_layer",
+                                                           "padded_piece_layer_is_the_piece_layer_of_the_content_then_zero_piece_roots",
+                                                           "padded_to_the_next_power_of_two", "the_entry_is_the_piece_layer_of_the_content")] + [
+          ("C02", "root_and_layer_come_from_the_file_hasher",
+           f"implies(len(fs_data(self.path)) > 0, {NODE}['']['pieces root'] == hasher.root) and "
+           f"implies(len(fs_data(self.path)) > self.piece_length, self.meta['piece layers'][hasher.root] == layers)"),
+          ("C03", "single_file_hybrid_has_no_file_list", f"not ('files' in {INFO}) or ('files' in old({INFO}))"),
+      ],
+      raises={"BaseException": {}},
+      notes="single-file payload, the creator behind the command line; root / layer are those the FileHasher iteration produced "
+            "(FileHasher.__next__ contract per piece)")
